@@ -226,7 +226,7 @@ func (r *reader) read() (m Message, err error) {
 
 	//fmt.Println("expectChunk", r.expectChunk)
 
-	if r.expectChunk {
+	for r.expectChunk && r.error == nil {
 		r.readChunk()
 	}
 
